@@ -166,6 +166,14 @@ type Raft struct {
 	// RPC chan comes from the transport layer
 	rpcCh <-chan RPC
 
+	// snapshotDiverged is set when the leader's log was found to disagree with
+	// our snapshot at the snapshot's last index. That cannot happen between a
+	// leader and a snapshot of committed entries, only after an operator
+	// override (for example a user restore that did not complete); once it is
+	// set, what the snapshot covers can no longer be taken to match the leader,
+	// and only a snapshot from the leader repairs it. Main loop only.
+	snapshotDiverged bool
+
 	// heartbeatCh carries the heartbeats that the transport's fast path
 	// (processHeartbeat) cannot answer without touching state owned by the
 	// main loop; they are processed there like any other RPC.
